@@ -248,8 +248,15 @@ pub fn get_storage_variables_assigned_in_constructor(
 
             if let pt::ContractPart::FunctionDefinition(box_function_definition) = contract_part {
                 if let pt::FunctionTy::Constructor = box_function_definition.ty {
-                    let target_nodes =
-                        ast::extract_target_from_node(Target::Assign, source_unit.clone().into());
+                    //Only assignments inside the body of the constructor count
+                    if box_function_definition.body.is_none() {
+                        continue;
+                    }
+
+                    let target_nodes = ast::extract_target_from_node(
+                        Target::Assign,
+                        box_function_definition.body.unwrap().into(),
+                    );
 
                     for node in target_nodes {
                         //Can unwrap since Target::Assign will always be an expression
